@@ -379,9 +379,15 @@ fn ref_pages(doc: &Document) -> Vec<ObjectId> {
             return;
         }
         let Some(d) = resolve_alias(doc, id).and_then(|(_, o)| dict_of(o)) else { return };
-        match d.get(b"Type") {
-            Ok(Object::Name(t)) if t == b"Page" => out.push(id),
-            Ok(Object::Name(t)) if t == b"Pages" => {
+        // the value of Type may sit behind references like any other value
+        let ty = match d.get(b"Type") {
+            Ok(Object::Reference(r)) => resolve_alias(doc, *r).map(|x| x.1),
+            Ok(o) => Some(o),
+            Err(_) => None,
+        };
+        match ty {
+            Some(Object::Name(t)) if t == b"Page" => out.push(id),
+            Some(Object::Name(t)) if t == b"Pages" => {
                 for k in kids_of(doc, d) {
                     if let Object::Reference(r) = k {
                         walk(doc, *r, out, depth + 1);
@@ -1898,7 +1904,7 @@ fn family_h(run: &Run, shv: &Shared) {
 // as whole objects
 
 /// (bit, name, what the feature adds)
-const ALIAS_FEATURES: [(&str, &str); 16] = [
+const ALIAS_FEATURES: [(&str, &str); 18] = [
     ("trailer", "trailer /Al -> alias -> tagged dictionary T (T is also referenced directly)"),
     ("only", "catalog /Only -> alias -> tagged dictionary T2 that nothing else references; T2 refers back to the catalog, the first page and the alias"),
     ("array", "catalog /AlArr -> alias -> array object [7001 cat lastpage T [firstpage]] that nothing else references"),
@@ -1915,6 +1921,8 @@ const ALIAS_FEATURES: [(&str, &str); 16] = [
     ("pages", "catalog /Pages -> alias -> root Pages node"),
     ("interkid", "the root's Kids entry for the intermediate Pages node is an alias -> that node (3 pages only)"),
     ("orphan", "an alias -> T that nothing references (it only has to be renumbered)"),
+    ("typeref", "the /Type of the root Pages node, of the first and of the last page is a reference to a name object (/Pages, /Page)"),
+    ("countref", "the /Count of the root Pages node is a reference to an integer object"),
 ];
 
 #[derive(Clone, Debug, PartialEq)]
@@ -1967,6 +1975,8 @@ impl AliasSpec {
         add("pages", &["a_pages"]);
         add("interkid", &["a_ikid"]);
         add("orphan", &["a_orph"]);
+        add("typeref", &["ty_pages", "ty_page"]);
+        add("countref", &["cnt"]);
         r
     }
     fn page_roles(&self) -> Vec<usize> {
@@ -2028,7 +2038,7 @@ fn build_alias(spec: &AliasSpec, ids: &[ObjectId], dang: &[ObjectId]) -> AliasDo
     // page tree
     let second = rf(id(if has("kid") { "a_kid" } else { "p2" }));
     let root_kids: Vec<Object> = if k >= 3 { vec![rf(pages[0]), rf(id(if has("interkid") { "a_ikid" } else { "inter" }))] } else { vec![rf(pages[0]), second.clone()] };
-    let mut r = dict(vec![("Type", name("Pages")), ("Tag", tag("root")), ("Count", Object::Integer(k as i64))]);
+    let mut r = dict(vec![("Type", if has("typeref") { rf(id("ty_pages")) } else { name("Pages") }), ("Tag", tag("root")), ("Count", if has("countref") { rf(id("cnt")) } else { Object::Integer(k as i64) })]);
     if has("kidsarr") {
         r.set("Kids", rf(id("a_karr")));
         put("karr", Object::Array(root_kids));
@@ -2054,7 +2064,7 @@ fn build_alias(spec: &AliasSpec, ids: &[ObjectId], dang: &[ObjectId]) -> AliasDo
             "inter"
         };
         let mut d = dict(vec![
-            ("Type", name("Page")),
+            ("Type", if has("typeref") && (i == 0 || i == k - 1) { rf(id("ty_page")) } else { name("Page") }),
             ("Tag", tag(&pname(i + 1))),
             ("Parent", rf(id(parent))),
             ("Next", rf(pages[(i + 1) % k])),
@@ -2148,6 +2158,13 @@ fn build_alias(spec: &AliasSpec, ids: &[ObjectId], dang: &[ObjectId]) -> AliasDo
     if has("orphan") {
         put("a_orph", rf(id("t")));
     }
+    if has("typeref") {
+        put("ty_pages", name("Pages"));
+        put("ty_page", name("Page"));
+    }
+    if has("countref") {
+        put("cnt", Object::Integer(k as i64));
+    }
     if !dang.is_empty() {
         // stale references (same number, other generation) to every object, found by any traversal before the real ones
         doc.trailer.set("Aaa", Object::Array(ids.iter().map(|i| rf((i.0, 1 - i.1.min(1)))).collect()));
@@ -2235,7 +2252,7 @@ const EXPECTED_L: &str = "an indirect object whose whole value is a reference (o
 
 fn family_l(run: &Run, shv: &Shared) {
     let thorough = run.thorough;
-    let page_feats: u32 = ["kid", "kidsarr", "bookmark", "pages", "interkid", "contents"].iter().map(|f| 1u32 << ALIAS_FEATURES.iter().position(|x| x.0 == *f).unwrap()).sum();
+    let page_feats: u32 = ["kid", "kidsarr", "bookmark", "pages", "interkid", "contents", "typeref", "countref"].iter().map(|f| 1u32 << ALIAS_FEATURES.iter().position(|x| x.0 == *f).unwrap()).sum();
     // work item: (spec, numbers, layout, page permutation)
     let mut work: Vec<(AliasSpec, &str, &str, Vec<usize>)> = vec![];
     let mut specs = 0u64;
@@ -2331,6 +2348,487 @@ fn family_l(run: &Run, shv: &Shared) {
     });
     run.add("alias_feature_sets_family_l", specs);
     run.set("alias_features", json!(ALIAS_FEATURES.iter().map(|f| json!([f.0, f.1])).collect::<Vec<_>>()));
+}
+
+
+// ---------------------------------------------------------------------------------------------
+// family S: alias documents (Kids / Type / Count / Pages / Root / kid entries behind references)
+// whose max_id is stale, or whose history put objects in or took them out through the public map
+
+const EXPECTED_S: &str = "Document::max_id before the call is whatever the caller left there (objects placed through the public `objects` map do not maintain it): with max_id 0, 1, a number in the middle, highest-1 or highest+100, and after objects were inserted / removed through the public map, renumbering gives numbers start..start+n-1, generations kept, max_id = last; trailer, every reachable object, every bookmark target and the page order equal the state right before the call under the renaming";
+
+fn family_s(run: &Run, shv: &Shared) {
+    let thorough = run.thorough;
+    let bit = |f: &str| 1u32 << ALIAS_FEATURES.iter().position(|x| x.0 == f).unwrap();
+    let all = (1u32 << ALIAS_FEATURES.len()) - 1;
+    let mut sets: Vec<u32> = vec![0, all, bit("kidsarr") | bit("typeref") | bit("countref"), bit("kid") | bit("interkid") | bit("pages") | bit("root")];
+    for f in ["kid", "kidsarr", "pages", "root", "interkid", "typeref", "countref", "parent", "contents", "bookmark", "scalars", "only"] {
+        sets.push(bit(f));
+    }
+    // work item: (spec, numbers, layout, page permutation, generations)
+    let mut work: Vec<(AliasSpec, &str, &str, Vec<usize>, &str)> = vec![];
+    for k in [3usize, 2] {
+        for &feats in &sets {
+            let spec = AliasSpec { k, feats, chain: 2 };
+            if k == 2 && feats == bit("interkid") {
+                continue;
+            }
+            let numberings: &[&str] = if thorough { &["dense1", "dense3", "sparse"] } else { &["dense1", "sparse"] };
+            let layouts: &[&str] = if thorough { &["fwd", "rev", "mix"] } else { &["fwd", "rev"] };
+            for numbers in numberings {
+                for layout in layouts {
+                    for p in perms(k) {
+                        for gmask in ["none", "alt"] {
+                            work.push((spec.clone(), numbers, layout, p.clone(), gmask));
+                        }
+                    }
+                }
+            }
+        }
+    }
+    let histories: Vec<Vec<Pre>> = vec![
+        vec![Pre::InsertHigh],
+        vec![Pre::RemoveLast],
+        vec![Pre::Add],
+        vec![Pre::SaveTable],
+        vec![Pre::Renumber(Some(2)), Pre::SetMaxId(0)],
+        vec![Pre::GetPages, Pre::SetMaxId(1)],
+        vec![Pre::InsertHigh, Pre::SetMaxId(1)],
+        vec![Pre::RemoveLast, Pre::InsertHigh],
+    ];
+    let sampled = AtomicU64::new(0);
+    util::par_for(work.len(), |w| {
+        let (spec, numbers, layout, perm, gmask) = &work[w];
+        let n = spec.roles().len();
+        let mut t = Tally::default();
+        let (mut hist_cases, mut hist_states) = (0u64, 0u64);
+        let (ids0, _) = alias_gen(spec, numbers, layout, perm, gmask, 1);
+        let (min, max) = (ids0.iter().map(|i| i.0).min().unwrap(), ids0.iter().map(|i| i.0).max().unwrap());
+        let mut sorted: Vec<u32> = ids0.iter().map(|i| i.0).collect();
+        sorted.sort();
+        let stale: [(&str, u32); 5] = [("zero", 0), ("one", 1), ("median", sorted[n / 2]), ("highest_minus_1", max - 1), ("highest_plus_100", max + 100)];
+        for start in start_values(n, min, max) {
+            let s = start.unwrap_or(1);
+            let (ids, dang) = alias_gen(spec, numbers, layout, perm, gmask, s);
+            let ad = build_alias(spec, &ids, &dang);
+            let tg = &ad.targets;
+            let cfgs: Vec<Vec<Bm>> = vec![vec![], vec![(*tg.last().unwrap(), None), (tg[0], Some(0))]];
+            let gen = json!({"family": "S", "alias": spec.to_json(), "numbers": numbers, "layout": layout, "page_perm": perm, "generations": gmask,
+                             "ids": spec.roles().iter().zip(ids.iter()).map(|(r, i)| json!([r, i.0, i.1])).collect::<Vec<_>>()});
+            // S1: the document as given carries a stale max_id
+            for (mode, value) in stale {
+                let mut doc = ad.doc.clone();
+                doc.max_id = value;
+                let prep = prepare(doc).unwrap_or_else(|e| {
+                    eprintln!("MACHINERY: family S generator: {}", e);
+                    std::process::exit(3)
+                });
+                t.docs += 1;
+                let mut gen = gen.clone();
+                gen["max_id_before_the_call"] = json!([mode, value]);
+                for bms in &cfgs {
+                    let out = run_case(&prep, bms, start);
+                    t.cases += 1;
+                    if out.identity {
+                        t.identity += 1;
+                    } else if start.is_some() {
+                        t.nontrivial += 1;
+                        if out.collision {
+                            t.collision += 1;
+                        }
+                    }
+                    if out.reordered {
+                        t.reordered += 1;
+                    }
+                    if !bms.is_empty() {
+                        t.with_bm += 1;
+                    }
+                    t.with_dang += 1;
+                    if out.failed() {
+                        t.failing += 1;
+                        shv.run.fail(None, case_json(&gen, Some(&prep.doc), bms, start), &vharness::run::truncate(&out.text(), 1500), EXPECTED_S);
+                    }
+                    if mode == "zero" && spec.feats.count_ones() == 3 && !out.identity && bms.len() == 2 && sampled.fetch_add(1, Ordering::Relaxed) < 1 {
+                        shv.run.sample(case_json(&gen, Some(&prep.doc), bms, start));
+                    }
+                }
+            }
+        }
+        // S2: a history through the public map, then every start value computed on the resulting state
+        let (ids, dang) = alias_gen(spec, numbers, layout, perm, gmask, 2);
+        let ad = build_alias(spec, &ids, &dang);
+        let gen = json!({"family": "S", "alias": spec.to_json(), "numbers": numbers, "layout": layout, "page_perm": perm, "generations": gmask});
+        let tg = &ad.targets;
+        let cfgs: Vec<Vec<Bm>> = vec![vec![], vec![(*tg.last().unwrap(), None), (tg[0], Some(0))]];
+        for pre in &histories {
+            for bms in &cfgs {
+                let case_of = |start: Option<u32>| {
+                    let mut v = case_json(&gen, Some(&ad.doc), bms, start);
+                    v["pre"] = Value::Array(pre.iter().map(|p| p.to_json()).collect());
+                    v
+                };
+                let state = match state_after(&ad.doc, bms, pre) {
+                    Ok(s) => s,
+                    Err(e) => {
+                        shv.run.fail(None, case_of(None), &e, "every step of the history succeeds");
+                        continue;
+                    }
+                };
+                let snap = match snapshot(&state) {
+                    Ok(s) => s,
+                    Err(e) => {
+                        shv.run.fail(None, case_of(None), &format!("state after the history: {}", e), "lopdf's own operations keep object numbers unique and leave the tagged objects alone");
+                        continue;
+                    }
+                };
+                hist_states += 1;
+                let sn = snap.doc.objects.len();
+                let (smin, smax) = match (snap.doc.objects.keys().next(), snap.doc.objects.keys().next_back()) {
+                    (Some(a), Some(b)) => (a.0, b.0),
+                    _ => (1, 1),
+                };
+                for start in start_values(sn, smin, smax) {
+                    let out = run_final(&snap, state.clone(), start);
+                    hist_cases += 1;
+                    if !out.identity && start.is_some() {
+                        t.nontrivial += 1;
+                    }
+                    if out.failed() {
+                        shv.run.fail(None, case_of(start), &vharness::run::truncate(&out.text(), 1500), EXPECTED_S);
+                    }
+                }
+            }
+        }
+        t.cases += hist_cases;
+        flush(run, &t, "S");
+        run.add("history_states", hist_states);
+    });
+}
+
+// ---------------------------------------------------------------------------------------------
+// family M: page trees that are malformed but inside the statement's domain ("arbitrary reference
+// graphs ... dangling references"): a Kids array holding a dangling reference of every flavour, a
+// Pages node without a usable Kids entry among page siblings. Every clause that remains meaningful
+// must hold: consecutive numbers, max_id, every object survives exactly once (the object COUNT is
+// kept), references to live objects resolve to the same content, dangling ones stay dangling, the
+// pages the reference walk finds keep their order.
+
+/// flavours of the dangling kid: a number nothing uses (far away / inside the new range when there
+/// is a free one); the number of a LIVE object X under the other generation, X being a page taken
+/// out of the tree / a Pages node with a page of its own / a plain dictionary, referenced from the
+/// catalog (OpenAction, so reachable) or from nowhere; the number of the first / last page of the
+/// tree, of the root, of the catalog under the other generation
+const MAL_D: [&str; 12] = [
+    "unused_far", "unused_in_range", "x_page_reach", "x_page_unreach", "x_pages_reach", "x_pages_unreach", "x_other_reach", "x_other_unreach", "first_page_gen", "last_page_gen", "root_gen",
+    "cat_gen",
+];
+/// flavours of the Kids entry of the Pages node N
+const MAL_N: [&str; 10] = ["missing", "dangling", "int", "dict", "empty", "name", "null", "ref_int", "ref_dict", "ref_stale_gen"];
+
+#[derive(Clone, Debug, PartialEq)]
+struct MalSpec {
+    k: usize,
+    /// the sequence sits in an intermediate Pages node (the root's only kid) instead of the root
+    nest: bool,
+    /// the Kids array as a string over P (the next page), D (the dangling kid), N (the Pages node without usable Kids)
+    seq: String,
+    /// "" or one of MAL_D
+    d: String,
+    /// "" or one of MAL_N
+    n: String,
+}
+
+impl MalSpec {
+    fn to_json(&self) -> Value {
+        json!({"pages": self.k, "nest": self.nest, "kids": self.seq, "dangling_kid": self.d, "kids_of_N": self.n})
+    }
+    fn x_kind(&self) -> Option<&str> {
+        self.d.strip_prefix("x_").map(|r| r.split('_').next().unwrap())
+    }
+    fn roles(&self) -> Vec<String> {
+        let mut r: Vec<String> = vec!["cat".into(), "root".into()];
+        if self.nest {
+            r.push("inter".into());
+        }
+        for i in 1..=self.k {
+            r.push(format!("p{}", i));
+        }
+        match self.x_kind() {
+            Some("pages") => r.extend(["x".to_string(), "y".to_string()]),
+            Some(_) => r.push("x".into()),
+            None => {}
+        }
+        if !self.n.is_empty() {
+            r.push("n".into());
+            match self.n.as_str() {
+                "ref_int" => r.push("nint".into()),
+                "ref_dict" => r.push("ndict".into()),
+                "ref_stale_gen" => r.push("narr".into()),
+                _ => {}
+            }
+        }
+        r
+    }
+    fn page_roles(&self) -> Vec<usize> {
+        let base = if self.nest { 3 } else { 2 };
+        (base..base + self.k).collect()
+    }
+}
+
+struct MalDoc {
+    doc: Document,
+    pages: Vec<ObjectId>,
+    /// bookmark targets: first page, last page, and X when there is one
+    targets: Vec<ObjectId>,
+}
+
+fn build_mal(spec: &MalSpec, ids: &[ObjectId], start: u32) -> MalDoc {
+    let roles = spec.roles();
+    assert_eq!(roles.len(), ids.len());
+    let id = |name: &str| -> ObjectId { ids[roles.iter().position(|r| r == name).unwrap_or_else(|| panic!("no role {}", name))] };
+    let tag = |name: &str| -> Object { Object::Integer(100 + roles.iter().position(|r| r == name).unwrap() as i64) };
+    let other_gen = |i: ObjectId| -> ObjectId { (i.0, 1 - i.1.min(1)) };
+    let k = spec.k;
+    let pname = |i: usize| format!("p{}", i);
+    let pages: Vec<ObjectId> = (1..=k).map(|i| id(&pname(i))).collect();
+    let holder = if spec.nest { "inter" } else { "root" };
+    let used: BTreeSet<u32> = ids.iter().map(|i| i.0).collect();
+    let far = (used.iter().next_back().unwrap().max(&(start + ids.len() as u32)) + 11, 0u16);
+    let dkid: Option<ObjectId> = match spec.d.as_str() {
+        "" => None,
+        "unused_far" => Some(far),
+        "unused_in_range" => Some((start..start + ids.len() as u32).find(|x| !used.contains(x)).map(|x| (x, 0)).unwrap_or(far)),
+        "first_page_gen" => Some(other_gen(pages[0])),
+        "last_page_gen" => Some(other_gen(pages[k - 1])),
+        "root_gen" => Some(other_gen(id("root"))),
+        "cat_gen" => Some(other_gen(id("cat"))),
+        _ => Some(other_gen(id("x"))),
+    };
+    let mut doc = Document::with_version("1.5");
+    let mut put = |name: &str, o: Object| {
+        assert!(doc.objects.insert(id(name), o).is_none(), "duplicate id in generator");
+    };
+    let mut c = dict(vec![("Type", name("Catalog")), ("Tag", tag("cat")), ("Pages", rf(id("root"))), ("Self", rf(id("cat")))]);
+    if spec.d.ends_with("_reach") {
+        c.set("OpenAction", Object::Array(vec![rf(id("x")), name("Fit")]));
+    }
+    put("cat", Object::Dictionary(c));
+    let mut kids = vec![];
+    let mut next_page = 0;
+    for ch in spec.seq.chars() {
+        match ch {
+            'P' => {
+                kids.push(rf(pages[next_page]));
+                next_page += 1;
+            }
+            'D' => kids.push(rf(dkid.expect("D without a flavour"))),
+            'N' => kids.push(rf(id("n"))),
+            _ => unreachable!(),
+        }
+    }
+    assert_eq!(next_page, k);
+    if spec.nest {
+        put("root", Object::Dictionary(dict(vec![("Type", name("Pages")), ("Tag", tag("root")), ("Kids", Object::Array(vec![rf(id("inter"))])), ("Count", Object::Integer(k as i64))])));
+        put("inter", Object::Dictionary(dict(vec![("Type", name("Pages")), ("Tag", tag("inter")), ("Parent", rf(id("root"))), ("Kids", Object::Array(kids)), ("Count", Object::Integer(k as i64))])));
+    } else {
+        put("root", Object::Dictionary(dict(vec![("Type", name("Pages")), ("Tag", tag("root")), ("Kids", Object::Array(kids)), ("Count", Object::Integer(k as i64))])));
+    }
+    for i in 0..k {
+        put(
+            &pname(i + 1),
+            Object::Dictionary(dict(vec![("Type", name("Page")), ("Tag", tag(&pname(i + 1))), ("Parent", rf(id(holder))), ("Next", rf(pages[(i + 1) % k])), ("MediaBox", Object::Array(vec![0.into(), 0.into(), 10.into(), 10.into()]))])),
+        );
+    }
+    match spec.x_kind() {
+        Some("page") => put("x", Object::Dictionary(dict(vec![("Type", name("Page")), ("Tag", tag("x")), ("Parent", rf(id(holder))), ("Peer", rf(pages[0]))]))),
+        Some("pages") => {
+            put("x", Object::Dictionary(dict(vec![("Type", name("Pages")), ("Tag", tag("x")), ("Parent", rf(id(holder))), ("Kids", Object::Array(vec![rf(id("y"))])), ("Count", Object::Integer(1))])));
+            put("y", Object::Dictionary(dict(vec![("Type", name("Page")), ("Tag", tag("y")), ("Parent", rf(id("x")))])));
+        }
+        Some(_) => put("x", Object::Dictionary(dict(vec![("Tag", tag("x")), ("Back", rf(id("cat"))), ("Peer", rf(pages[k - 1]))]))),
+        None => {}
+    }
+    if !spec.n.is_empty() {
+        let mut n = dict(vec![("Type", name("Pages")), ("Tag", tag("n")), ("Parent", rf(id(holder))), ("Count", Object::Integer(0))]);
+        match spec.n.as_str() {
+            "missing" => {}
+            "dangling" => n.set("Kids", rf((far.0 + 1, 0))),
+            "int" => n.set("Kids", Object::Integer(1)),
+            "dict" => n.set("Kids", Object::Dictionary(dict(vec![("A", rf(pages[0]))]))),
+            "empty" => n.set("Kids", Object::Array(vec![])),
+            "name" => n.set("Kids", name("None")),
+            "null" => n.set("Kids", Object::Null),
+            "ref_int" => n.set("Kids", rf(id("nint"))),
+            "ref_dict" => n.set("Kids", rf(id("ndict"))),
+            // the number of a live array object (holding a reference to the first page) under the other generation
+            "ref_stale_gen" => n.set("Kids", rf(other_gen(id("narr")))),
+            _ => unreachable!(),
+        }
+        put("n", Object::Dictionary(n));
+        match spec.n.as_str() {
+            "ref_int" => put("nint", Object::Integer(7008)),
+            "ref_dict" => put("ndict", Object::Dictionary(dict(vec![("Tag", tag("ndict")), ("Back", rf(id("n")))]))),
+            // nothing leads to this array: it only has to be renumbered
+            "ref_stale_gen" => put("narr", Object::Array(vec![rf(pages[0])])),
+            _ => {}
+        }
+    }
+    doc.trailer.set("Root", rf(id("cat")));
+    doc.trailer.set("ID", Object::Array(vec![Object::string_literal("a"), Object::string_literal("b")]));
+    doc.max_id = ids.iter().map(|i| i.0).max().unwrap_or(0);
+    let mut targets = vec![pages[0], pages[k - 1]];
+    if spec.x_kind().is_some() {
+        targets.push(id("x"));
+    }
+    MalDoc { doc, pages, targets }
+}
+
+/// Every arrangement of k P's, the D (if any) and the N (if any).
+fn mal_sequences(k: usize, d: bool, n: bool) -> Vec<String> {
+    fn rec(cur: &mut String, p: usize, d: bool, n: bool, out: &mut Vec<String>) {
+        if p == 0 && !d && !n {
+            out.push(cur.clone());
+            return;
+        }
+        if p > 0 {
+            cur.push('P');
+            rec(cur, p - 1, d, n, out);
+            cur.pop();
+        }
+        if d {
+            cur.push('D');
+            rec(cur, p, false, n, out);
+            cur.pop();
+        }
+        if n {
+            cur.push('N');
+            rec(cur, p, d, false, out);
+            cur.pop();
+        }
+    }
+    let mut out = vec![];
+    rec(&mut String::new(), k, d, n, &mut out);
+    out
+}
+
+const EXPECTED_M: &str = "a Kids array may hold a reference that resolves to nothing, and a Pages node may lack a usable Kids entry - the document is still a reference graph with dangling references: numbers start..start+n-1, generations kept, max_id = last, the number of objects is unchanged and every object survives exactly once under a one-to-one renaming; trailer, every reachable object and every bookmark target equal the originals under it; the dangling kid still resolves to nothing; the pages found by a depth-first walk that skips what does not resolve keep their order";
+
+/// role -> number position: the pages take the first / last positions in the order `perm`, the others the rest ascending.
+fn mal_ids(spec: &MalSpec, numbers: &str, pages_last: bool, perm: &[usize], gmask: &str) -> Vec<ObjectId> {
+    let n = spec.roles().len();
+    let set = alias_numbers(numbers, n);
+    let pr = spec.page_roles();
+    let k = spec.k;
+    let lay: Vec<usize> = if pages_last { (n - k..n).collect() } else { (0..k).collect() };
+    let mut others = (0..n).filter(|x| !lay.contains(x));
+    let mut pos = vec![0usize; n];
+    for (role, slot) in pos.iter_mut().enumerate() {
+        *slot = match pr.iter().position(|r| *r == role) {
+            Some(j) => lay[perm[j]],
+            None => others.next().unwrap(),
+        };
+    }
+    (0..n).map(|i| (set[pos[i]], if gmask == "alt" && i % 2 == 1 { 1 } else { 0 })).collect()
+}
+
+fn family_m(run: &Run, shv: &Shared) {
+    let thorough = run.thorough;
+    // work item: (spec, reduced?) - `reduced` (quick: the D x N pairs) takes two numberings, pages last, alternating generations, four start values, two bookmark lists
+    let mut work: Vec<(MalSpec, bool)> = vec![];
+    let mut structures = 0u64;
+    for k in [3usize, 2] {
+        for nest in [false, true] {
+            let mut ds: Vec<&str> = vec![""];
+            ds.extend(MAL_D);
+            let mut ns: Vec<&str> = vec![""];
+            ns.extend(MAL_N);
+            for d in &ds {
+                for n in &ns {
+                    let pair = !d.is_empty() && !n.is_empty();
+                    if pair && nest && !thorough {
+                        continue;
+                    }
+                    for seq in mal_sequences(k, !d.is_empty(), !n.is_empty()) {
+                        structures += 1;
+                        work.push((MalSpec { k, nest, seq, d: d.to_string(), n: n.to_string() }, pair && !thorough));
+                    }
+                }
+            }
+        }
+    }
+    let sampled = AtomicU64::new(0);
+    util::par_for(work.len(), |w| {
+        let (spec, reduced) = &work[w];
+        let n = spec.roles().len();
+        let mut t = Tally::default();
+        let numberings: &[&str] = if *reduced { &["dense1", "sparse"] } else { &["dense1", "dense3", "sparse"] };
+        let layouts: &[bool] = if *reduced { &[true] } else { &[false, true] };
+        let gmasks: &[&str] = if *reduced { &["alt"] } else { &["none", "alt"] };
+        for numbers in numberings {
+            for &pages_last in layouts {
+                for perm in perms(spec.k) {
+                    for gmask in gmasks {
+                        let ids = mal_ids(spec, numbers, pages_last, &perm, gmask);
+                        let (min, max) = (ids.iter().map(|i| i.0).min().unwrap(), ids.iter().map(|i| i.0).max().unwrap());
+                        let mut starts = start_values(n, min, max);
+                        if *reduced {
+                            starts = vec![None, Some(2), Some(n as u32), Some(max + 1)];
+                        }
+                        for start in starts {
+                            let md = build_mal(spec, &ids, start.unwrap_or(1));
+                            let prep = prepare(md.doc).unwrap_or_else(|e| {
+                                eprintln!("MACHINERY: family M generator: {}", e);
+                                std::process::exit(3)
+                            });
+                            if prep.pages != md.pages {
+                                eprintln!("MACHINERY: family M generator: reference page order {:?} differs from the generator's {:?} ({:?})", prep.pages, md.pages, spec);
+                                std::process::exit(3);
+                            }
+                            t.docs += 1;
+                            let gen = json!({"family": "M", "malformed": spec.to_json(), "numbers": numbers, "pages_last": pages_last, "page_perm": perm, "generations": gmask,
+                                             "ids": spec.roles().iter().zip(ids.iter()).map(|(r, i)| json!([r, i.0, i.1])).collect::<Vec<_>>()});
+                            let tg = &md.targets;
+                            let mut cfgs: Vec<Vec<Bm>> = vec![vec![]];
+                            if !*reduced {
+                                cfgs.push(vec![(*tg.last().unwrap(), None)]);
+                            }
+                            cfgs.push(vec![(*tg.last().unwrap(), None), (tg[0], Some(0))]);
+                            for bms in &cfgs {
+                                let out = run_case(&prep, bms, start);
+                                t.cases += 1;
+                                if out.identity {
+                                    t.identity += 1;
+                                } else if start.is_some() {
+                                    t.nontrivial += 1;
+                                    if out.collision {
+                                        t.collision += 1;
+                                    }
+                                }
+                                if out.reordered {
+                                    t.reordered += 1;
+                                }
+                                if !bms.is_empty() {
+                                    t.with_bm += 1;
+                                }
+                                if !spec.d.is_empty() {
+                                    t.with_dang += 1;
+                                }
+                                if out.failed() {
+                                    t.failing += 1;
+                                    shv.run.fail(None, case_json(&gen, Some(&prep.doc), bms, start), &vharness::run::truncate(&out.text(), 1500), EXPECTED_M);
+                                }
+                                if spec.d == "x_page_reach" && spec.n == "dangling" && !out.identity && out.reordered && bms.len() == 2 && sampled.fetch_add(1, Ordering::Relaxed) < 1 {
+                                    shv.run.sample(case_json(&gen, Some(&prep.doc), bms, start));
+                                }
+                            }
+                        }
+                    }
+                }
+            }
+        }
+        flush(run, &t, "M");
+    });
+    run.add("structures_family_m", structures);
 }
 
 // ---------------------------------------------------------------------------------------------
@@ -2489,6 +2987,10 @@ fn main() {
     family_w(&run);
     run.set("wall_family_w_s", json!((run.elapsed() * 10.0).round() / 10.0));
     family_l(&run, &shv);
+    run.set("wall_family_l_s", json!((run.elapsed() * 10.0).round() / 10.0));
+    family_m(&run, &shv);
+    run.set("wall_family_m_s", json!((run.elapsed() * 10.0).round() / 10.0));
+    family_s(&run, &shv);
     run.exhaustive(true);
     run.finish();
 }
